@@ -136,6 +136,72 @@ theorem sim_assign {s : State} {σ : Store} (h : Sim s σ) (x : Nat) (idx : Inde
           · simp only [Option.map_some]
             rw [List.getElem?_set_ne (Ne.symm hbc)]; exact hb'
 
+/-! ## write through the flat view -/
+
+theorem setFlat_lengths (rows : List (List Int)) (k : Nat) (v : Int) :
+    (Spec.setFlat rows k v).map List.length = rows.map List.length := by
+  induction rows generalizing k with
+  | nil => rfl
+  | cons r rs ih =>
+    simp only [Spec.setFlat]
+    split
+    · simp
+    · simp [ih]
+
+theorem setFlat_flatten (rows : List (List Int)) (k : Nat) (v : Int) :
+    (Spec.setFlat rows k v).flatten = rows.flatten.set k v := by
+  induction rows generalizing k with
+  | nil => simp [Spec.setFlat]
+  | cons r rs ih =>
+    simp only [Spec.setFlat]
+    split
+    · rename_i hk
+      simp only [List.flatten_cons]
+      rw [List.set_append_left _ _ hk]
+    · rename_i hk
+      simp only [List.flatten_cons, ih]
+      rw [List.set_append_right _ _ (by omega)]
+
+theorem flatten_length (rows : List (List Int)) : rows.flatten.length = (rows.map List.length).sum := by
+  simp [List.length_flatten]
+
+theorem sim_poke {s : State} {σ : Store} (h : Sim s σ) (x k : Nat) (v : Int) :
+    Sim (step s (.poke x k v)).1 (stepS σ (.poke x k v)).1 ∧
+      (step s (.poke x k v)).2 = (stepS σ (.poke x k v)).2 := by
+  simp only [step, stepS]
+  rw [h.arr x]
+  have hvar := h.var x
+  unfold Store.val at *
+  rw [hvar]
+  cases hv : s.var x with
+  | none => exact ⟨h, rfl⟩
+  | some bv =>
+    obtain ⟨c, sh⟩ := bv
+    obtain ⟨rows, hc, hb, hsh⟩ := h.hcell c sh (var_mem hv)
+    simp only [Option.map_some, Option.bind_some, hc]
+    have hd : (RA.ofRows rows).data = rows.flatten := rfl
+    rw [hd, flatten_length]
+    by_cases hk : k < (rows.map List.length).sum
+    · simp only [hk, if_true]
+      refine ⟨⟨?_, h.hvars, ?_⟩, trivial⟩
+      · simp [h.hlen]
+      · intro b sh' hm
+        obtain ⟨r, hc', hb', hsh'⟩ := h.hcell b sh' hm
+        by_cases hbc : b = c
+        · subst hbc
+          rw [hc] at hc'
+          simp only [Option.some.injEq] at hc'
+          subst hc'
+          refine ⟨Spec.setFlat rows k v, ?_, ?_, ?_⟩
+          · simp only [List.getElem?_set_self (List.getElem?_eq_some_iff.mp hc).1]
+          · simp only [List.getElem?_set_self (List.getElem?_eq_some_iff.mp hb).1, setFlat_flatten]
+          · rw [hsh', setFlat_lengths]
+        · refine ⟨r, ?_, ?_, hsh'⟩
+          · rw [List.getElem?_set_ne (Ne.symm hbc)]; exact hc'
+          · rw [List.getElem?_set_ne (Ne.symm hbc)]; exact hb'
+    · simp only [hk, if_false]
+      exact ⟨h, trivial⟩
+
 /-! ## the step lemma -/
 
 theorem sim_step {s : State} {σ : Store} (h : Sim s σ) (st : Stmt) :
@@ -214,6 +280,7 @@ theorem sim_step {s : State} {σ : Store} (h : Sim s σ) (st : Stmt) :
     cases σ.val x with
     | none => rfl
     | some r => simp only [Option.map_some, Option.bind_some, step.reduceRowsSum, (Props.C01.C01_of_rows r).1]
+  | poke x k v => exact sim_poke h x k v
 
 /-- HEADLINE helper: equal traces from any two related states -/
 theorem sim_run {s : State} {σ : Store} (h : Sim s σ) (prog : List Stmt) : run s prog = runS σ prog := by
